@@ -27,7 +27,7 @@ type guard struct {
 
 func guardsOf(fn *ssa.Function) []guard {
 	var gs []guard
-	for _, b := range fn.Blocks {
+	for _, b := range theCtx.GB(fn) {
 		if len(b.Instrs) == 0 {
 			continue
 		}
